@@ -1,4 +1,5 @@
 import TarsModel.Proofs.LoggerAdmits
+import TarsModel.Proofs.LogWriter
 
 /-!
 # C20 — Flush writes every log entry logged before it, once and in order
@@ -220,5 +221,66 @@ theorem C20_counterexample_history :
   intro h
   have := h [.logCall lastWords, .logRet lastWords] [] [] rfl lastWords (by simp [retsOf])
   simp [writesOf] at this
+
+/-! ## The writer end: the size-rolling file writer keeps what it is handed
+
+`flushLog` hands every entry to `v.writer.Write`; for the property's point ("the entries logged
+immediately before a panic-triggered exit are not lost") the writer `SetFileRoller` installs must
+put them into the files. Model: `Model/LogWriter.lean` (`RollFileWriter.Write`, `reOpenFile`,
+literally, over a small file system with inodes, a directory and handles). `ws` is any sequence
+of `Write` calls, each with the clock value it sees and whether its `os.OpenFile` calls succeed. -/
+
+/-- Reading the files back in roll order (`<name>(num-1).log … <name>1.log <name>.log`) gives
+exactly the sequence of all `Write` arguments, each once, whole and in order, after what the
+rotation has discarded on purpose (files renamed over in the last slot) — for every `num`, every
+size limit, every length function, every clock history, provided `os.OpenFile` succeeds. -/
+theorem C20_roll_concat {β : Type} (len : β → Nat) (num size : Nat) (ws : List (LogWriter.Env × β))
+    (hok : ∀ e ∈ ws, e.1.openOk = true) :
+    (LogWriter.writes len true num size LogWriter.init ws).dropped ++
+      LogWriter.concatRoll (LogWriter.writes len true num size LogWriter.init ws) (LogWriter.slots num)
+      = ws.map (·.2) := by
+  obtain ⟨fs, hinv, _⟩ :=
+    LogWriter.writes_inv ws LogWriter.init [] [] (LogWriter.inv_init len num size) hok
+  simpa using LogWriter.concatRoll_inv hinv
+
+/-- … and nothing is discarded as long as the total volume stays below `num × size`: then the
+files are exactly the writes. -/
+theorem C20_roll_complete {β : Type} (len : β → Nat) (num size : Nat) (ws : List (LogWriter.Env × β))
+    (hok : ∀ e ∈ ws, e.1.openOk = true)
+    (hvol : LogWriter.sumLen len (ws.map (·.2)) < num * size) :
+    LogWriter.concatRoll (LogWriter.writes len true num size LogWriter.init ws) (LogWriter.slots num)
+      = ws.map (·.2) := by
+  obtain ⟨fs, hinv, _⟩ :=
+    LogWriter.writes_inv ws LogWriter.init [] [] (LogWriter.inv_init len num size) hok
+  have hd : (LogWriter.writes len true num size LogWriter.init ws).dropped = [] := by
+    rcases hinv.dropBound with h | h
+    · exact h
+    · simp only [List.nil_append] at h; omega
+  have := LogWriter.concatRoll_inv hinv
+  rw [hd] at this
+  simpa using this
+
+/-- non-vacuity: three files of limit 2, five one-byte writes, two rotations, nothing discarded -/
+example :
+    LogWriter.concatRoll (LogWriter.writes (fun _ : Nat => 1) true 3 2 LogWriter.init
+      [(⟨0, true⟩, 10), (⟨0, true⟩, 11), (⟨5, true⟩, 12), (⟨20, true⟩, 13), (⟨21, true⟩, 14)]) 3
+      = [10, 11, 12, 13, 14] ∧
+    LogWriter.fileAt (LogWriter.writes (fun _ : Nat => 1) true 3 2 LogWriter.init
+      [(⟨0, true⟩, 10), (⟨0, true⟩, 11), (⟨5, true⟩, 12), (⟨20, true⟩, 13), (⟨21, true⟩, 14)]) 2
+      = [10, 11] := by decide
+
+/-- Without the reopen at the end of the rotation branch the handle stays closed: every write
+until the periodic reopen (`openTime + 10 < now`) is lost, although nothing was discarded. -/
+theorem C20_roll_counterexample_no_reopen :
+    LogWriter.concatRoll (LogWriter.writes (fun _ : Nat => 1) false 3 2 LogWriter.init
+      [(⟨0, true⟩, 10), (⟨0, true⟩, 11), (⟨5, true⟩, 12), (⟨9, true⟩, 13), (⟨20, true⟩, 14)]) 3
+      = [10, 11, 14] ∧
+    (LogWriter.writes (fun _ : Nat => 1) false 3 2 LogWriter.init
+      [(⟨0, true⟩, 10), (⟨0, true⟩, 11), (⟨5, true⟩, 12), (⟨9, true⟩, 13), (⟨20, true⟩, 14)]).dropped
+      = [] := by decide
+
+/-- The extractor saw the reopen at the end of the rotation branch of `RollFileWriter.Write`
+(`Consts.loggerRollReopenAfterRotate`): the theorems above are about the writer of this tree. -/
+theorem C20_roll_tree_reopens : LogWriter.treeReopens = true := by decide
 
 end Tars.Logger
